@@ -341,7 +341,9 @@ func (h *Sources) Write(infer bool) {
 func (h *Sources) Accept(hold, infer bool, err error) {
 	h.accepted = true
 	h.acceptHold = hold
-	h.acceptLine = *h.line
+	// Keep a copy: commands still pending when the line is
+	// accepted might run afterwards and modify the buffer in place.
+	h.acceptLine = append(core.Line{}, *h.line...)
 	h.acceptErr = err
 
 	// Write the line to the history sources only when the line is not
